@@ -19,6 +19,7 @@ from .analyze_tags import InnerTagMap
 from .analyze_tags import TagAnalysis
 from .builtin import DictLoader
 from .exceptions import BlockNestingError
+from .exceptions import ContextDepthError
 from .exceptions import LiquidError
 from .exceptions import LiquidSyntaxError
 from .exceptions import TemplateInheritanceError
@@ -283,6 +284,13 @@ class Environment:
         except (LiquidSyntaxError, TemplateInheritanceError, BlockNestingError) as err:
             err.template_name = path
             raise err
+        except RecursionError as err:
+            # Running out of stack, most likely while loading a partial template deep
+            # inside a recursive render. Not to be taken for a parsing error, which a
+            # tolerant environment would report and carry on from.
+            raise ContextDepthError(
+                "maximum recursion depth reached while parsing", token=None
+            ) from err
         except Exception as err:  # noqa: BLE001
             raise LiquidError("unexpected liquid parsing error", token=None) from err
         return self.template_class(
